@@ -132,6 +132,14 @@ func JSONValue(t *rapid.T, label string, depth int) any {
 	case 1:
 		return rapid.Bool().Draw(t, label+"-b")
 	case 2:
+		// Strings that look like values of another kind must stay strings.
+		if rapid.IntRange(0, 3).Draw(t, label+"-lookalike") == 0 {
+			return rapid.SampledFrom([]string{
+				"2024-03-01T12:00:00.000Z", "2024-03-01T12:00:00+00:00", "2024-03-01T12:00:00.10-07:00", "2024-03-01T12:00:00Z",
+				"0001-01-01T00:00:00Z", "12", "1e3", "true", "null", "AAE=", "{}", "[]",
+			}).Draw(t, label+"-like")
+		}
+
 		return HostileString(t, label+"-s")
 	case 3:
 		return float64(rapid.Int64Range(-(1<<53), 1<<53).Draw(t, label+"-i"))
@@ -252,6 +260,9 @@ func Selection(t *rapid.T, ts *TypeSpec, label string, plain bool) ([]string, bo
 	return sel, true
 }
 
+// swapPlaceholder is an attribute name no generated type uses.
+const swapPlaceholder = "zz--swap--placeholder"
+
 // Document draws a document case.
 func Document(t *rapid.T, o DocOpts) *DocCase {
 	c := &DocCase{
@@ -267,10 +278,29 @@ func Document(t *rapid.T, o DocOpts) *DocCase {
 	newRes := func(ts *TypeSpec, label string, soft bool) (ResModel, bool) {
 		var res jsonapi.Resource
 
+		var swapped *jsonapi.Attr
+
 		switch {
 		case soft:
 			typ := SoftTypeOf(ts)
 			res = &jsonapi.SoftResource{Type: &typ}
+
+			// The type of a soft resource may be edited under it: sometimes an
+			// attribute only replaces a placeholder after the values were
+			// set, and so reads as its zero value.
+			if len(ts.Attrs) > 0 && rapid.IntRange(0, 3).Draw(t, label+"-swap") == 0 {
+				a := ts.Attrs[rapid.IntRange(0, len(ts.Attrs)-1).Draw(t, label+"-swapattr")]
+				swapped = &a
+
+				delete(typ.Attrs, a.Name)
+				typ.Attrs[swapPlaceholder] = jsonapi.Attr{Name: swapPlaceholder, Type: jsonapi.AttrTypeString}
+
+				defer func(typ *jsonapi.Type) {
+					res.Set(swapPlaceholder, "placeholder")
+					typ.RemoveAttr(swapPlaceholder)
+					typ.Attrs[a.Name] = a
+				}(&typ)
+			}
 		case rapid.Bool().Draw(t, label+"-viaNew"):
 			typ := ss.Schema.GetType(ts.Name)
 			res = typ.New()
@@ -280,6 +310,10 @@ func Document(t *rapid.T, o DocOpts) *DocCase {
 
 		vals := FillResource(t, res, ts, label)
 		key := ts.Name + "\x00" + vals["id"].(string)
+
+		if swapped != nil {
+			vals[swapped.Name] = ZeroValue(*swapped)
+		}
 
 		if usedIDs[key] {
 			return ResModel{}, false
@@ -358,6 +392,27 @@ func Document(t *rapid.T, o DocOpts) *DocCase {
 				// The collection stores a snapshot; the model follows the stored element.
 				m.Res = col.At(col.Len() - 1)
 				c.Primary = append(c.Primary, m)
+			}
+		}
+
+		// The collection's type may be edited after the members were added:
+		// an attribute that is taken out and put back reads as its zero
+		// value in every member.
+		if len(ts.Attrs) > 0 && rapid.IntRange(0, 3).Draw(t, "colswap") == 0 {
+			a := ts.Attrs[rapid.IntRange(0, len(ts.Attrs)-1).Draw(t, "colswapattr")]
+
+			typ.RemoveAttr(a.Name)
+			typ.Attrs[swapPlaceholder] = jsonapi.Attr{Name: swapPlaceholder, Type: jsonapi.AttrTypeString}
+
+			for i := 0; i < col.Len(); i++ {
+				col.At(i).Get(a.Name)
+			}
+
+			typ.RemoveAttr(swapPlaceholder)
+			typ.Attrs[a.Name] = a
+
+			for i := range c.Primary {
+				c.Primary[i].Vals[a.Name] = ZeroValue(a)
 			}
 		}
 
@@ -445,7 +500,7 @@ func Document(t *rapid.T, o DocOpts) *DocCase {
 		c.Doc.Errors = append([]jsonapi.Error{}, c.Errors...)
 	}
 
-	c.PrePath = rapid.SampledFrom([]string{"", "/", "https://h", "https://h/api/", "http://x/a b", "/p\"q"}).Draw(t, "prepath")
+	c.PrePath = rapid.SampledFrom([]string{"", "/", "https://h", "https://h/api/", "http://x/a b", "/p\"q", "https://h/my%20api", "/100%/", "/%s/%d%v"}).Draw(t, "prepath")
 	c.Doc.PrePath = c.PrePath
 
 	// Selection and relationship data per type.
